@@ -73,6 +73,39 @@ ENUM_DISCR = {
     'Constant': 0, 'Input': 1, 'Witness': 2,
 }
 
+_crate_enums = None
+def crate_enums():
+    """enum Name { A, B(..), C {..} } declarations of /repo/src: 'Name::Variant' -> discriminant"""
+    global _crate_enums
+    if _crate_enums is None:
+        import os
+        from . import common
+        out = {}
+        for d, _, fs in os.walk(os.path.join(common.REPO, 'src')):
+            for f in fs:
+                if not f.endswith('.rs') or f == 'fiat.rs': continue
+                txt = open(os.path.join(d, f)).read()
+                for m in re.finditer(r'\benum\s+(\w+)\s*\{', txt):
+                    i = m.end(); depth = 1; j = i
+                    while j < len(txt) and depth:
+                        if txt[j] == '{': depth += 1
+                        elif txt[j] == '}': depth -= 1
+                        j += 1
+                    body = txt[i:j - 1]
+                    # strip nested braces / parens
+                    flat = ''; dd = 0
+                    for ch in body:
+                        if ch in '{(': dd += 1
+                        elif ch in '})': dd -= 1
+                        elif dd == 0: flat += ch
+                    k = 0
+                    for part in flat.split(','):
+                        part = re.sub(r'//.*', '', part); part = re.sub(r'#\[.*?\]', '', part).strip()
+                        mm = re.match(r'^(\w+)', part)
+                        if mm: out[f'{m.group(1)}::{mm.group(1)}'] = k; k += 1
+        _crate_enums = out
+    return _crate_enums
+
 class Frame:
     _n = 0
     def __init__(s, item, generics=None):
@@ -169,7 +202,7 @@ def int_ty_of(tytext):
 class Interp:
     def __init__(s, items, ctx, models, enums=None, merge_fns=()):
         s.items = items; s.ctx = ctx; s.models = models; s.depth = 0; s.stack = []
-        s.enum_discr = dict(ENUM_DISCR); s.enum_discr.update(enums or {})
+        s.enum_discr = dict(ENUM_DISCR); s.enum_discr.update(crate_enums()); s.enum_discr.update(enums or {})
         s.merge_fns = set(merge_fns)
         s.steps = 0; s.max_steps = 5_000_000; s.assign_hooks = {}
         s._impl_index = None; s._closure_index = None; s._const_cache = {}
@@ -272,13 +305,17 @@ class Interp:
             if len(good) > 1:
                 # same-named types in different modules (u32 / u64 wrappers): the full path of T must occur in the item's types
                 base = strip_lt(ty).lstrip('&').replace('mut ', '')
-                g2 = [it for it in good if base in it.header or any(base in t for t in it.locals.values())]
+                g2 = [it for it in good if base in it.header]
+                if not g2: g2 = [it for it in good if any(base in t for t in it.locals.values())]
                 if g2: good = g2
             if len(good) > 1:
                 g2 = [it for it in good if it.kind == 'fn'] if nargs is not None else good
                 good = g2 or good
             if len(good) == 1: return good[0], generics_txt
             if len(good) > 1: raise Unsupported(f'ambiguous callee {fn0}: ' + ', '.join(g.name for g in good))
+            # the impl may be written against a type alias (`impl FqVarExtension for FqVar`): a unique impl of that trait method
+            alias = [it for it in cands if s._hdr_parse(it.impl_header())[0] == trname and it.kind == 'fn']
+            if len(alias) == 1 and re.fullmatch(r'\w+', s._hdr_parse(alias[0].impl_header())[2] or ''): return alias[0], generics_txt
             # provided (default) trait method, generic over Self
             k = trm.group(1) + '::' + meth
             if k in s.items:
@@ -485,6 +522,7 @@ class Interp:
         it = s.items.get('@' + alloc)
         if it is None: raise Unsupported('unknown alloc ' + alloc)
         name = it.value_text
+        if '__CALLSITE' in name: return Opaque('tracing-callsite')
         fr = s.__dict__.setdefault('_statics_frame', Frame(Item('fn', '<statics>', '')))
         if name not in fr.locals:
             st = s.items.get(name)
@@ -616,6 +654,8 @@ class Interp:
     def discriminant(s, v):
         if isinstance(v, Enum):
             if v.variant in s.enum_discr: return s.enum_discr[v.variant]
+            k = v.name.split('::')[-1] + '::' + v.variant
+            if k in s.enum_discr: return s.enum_discr[k]
             raise Unsupported('discriminant of ' + repr(v))
         if hasattr(v, 'mir_discriminant'): return v.mir_discriminant(s)
         raise Unsupported('discriminant of ' + repr(v))
